@@ -6,7 +6,6 @@ import (
 	"reflect"
 	"sort"
 	"strings"
-	"time"
 
 	"github.com/junioryono/godi/v4/internal/graph"
 	"github.com/junioryono/godi/v4/internal/reflection"
@@ -511,15 +510,24 @@ func (st *gstate) queries(variant int) []Finding {
 			if st.pending || m.cyclic() {
 				return
 			}
-			done := make(chan struct{})
-			go func() { g.CalculateDepths(); close(done) }()
-			select {
-			case <-done:
-			case <-time.After(20 * time.Second):
+			// CalculateDepths walks the dependents lists breadth-first and only terminates if
+			// they are acyclic: decide that first (deterministically) instead of timing the call
+			dg := newDigraph()
+			for i, n := range st.pool {
+				var ds []int
+				for _, k := range g.GetDependents(kit.TypeOf(n.T), n.keyAny(), n.Group) {
+					if j := poolIdx(st.pool, k); j >= 0 {
+						ds = append(ds, j)
+					}
+				}
+				dg.add(i, ds)
+			}
+			if dg.cyclic() {
 				st.hung = true
-				bad("CalculateDepths", "did not terminate within 20s on an acyclic graph")
+				bad("CalculateDepths", "would not terminate: the dependents lists of this acyclic graph contain a cycle")
 				return
 			}
+			g.CalculateDepths()
 			memo := map[int]int{}
 			for i, n := range st.pool {
 				if !m.nodes[i] {
@@ -720,11 +728,8 @@ func c19Search(r *mc.Report, npool, maxDeps, maxStates int, shard, nshards int) 
 					r.Violate(f.F, f.Detail+"\n  history: "+strings.Join(hs, " "), c19Case{Pool: npool, Hist: h})
 				}
 				if st.hung {
-					// a goroutine is spinning inside the real graph: stop this job here
-					r.Capped = true
-					r.CapNotes = append(r.CapNotes, "c19: stopped after a non-terminating query")
-					r.States += int64(len(seen))
-					return
+					// the root cause has been reported; do not expand this state
+					continue
 				}
 				if st.diverged {
 					continue
